@@ -424,6 +424,65 @@ def main(ctx):
             return rec.fail(case, "%s (large table, %d rows)" % (m, n))
         rec.ok(case, outcome="big:%s" % rsel[0] if rsel else "big:all", nontrivial=True)
 
+    # long selections that agree on every cheap summary (length, first and last entries, minimum, maximum, sum, the
+    # abbreviated text form numpy prints for arrays of more than 1000 entries) and differ only in the middle, read
+    # one after the other on ONE handle: a reader that remembers its last selection by such a summary serves the
+    # second read from the first (round 8)
+    def lookalike(name, L):
+        base = np.arange(0, L, dtype="i8") * 2            # even rows 0 .. 2L-2
+        v = base.copy()
+        mid = L // 2
+        if name == "base":
+            pass
+        elif name == "one-middle-entry":
+            v[mid] += 1
+        elif name == "same-sum":
+            v[mid - 1] -= 1
+            v[mid + 1] += 1
+        elif name == "middle-block-shifted":
+            v[mid - 50:mid + 50] += 1
+        elif name == "middle-swapped":
+            v[mid - 3], v[mid + 3] = v[mid + 3], v[mid - 3]
+        else:
+            raise ValueError(name)
+        return v
+
+    LOOK = ["base", "one-middle-entry", "same-sum", "middle-block-shifted", "middle-swapped"]
+
+    def one_lookalike(case, rec):
+        n, L, style, first, second, container, csel = case
+        key = ("big", n, rec.tmp)
+        if key not in files:
+            fnb = os.path.join(rec.tmp, "c02_big_%d.rec" % n)
+            tb = np.zeros(n, dtype=[("a", "<i8"), ("x", "<f8")])
+            tb["a"] = np.arange(n) * 3 + 1
+            tb["x"] = np.arange(n) / 8.0 - 5.0
+            sfile.write(fnb, tb)
+            files[key] = (fnb, tb)
+        fnb, tb = files[key]
+        cols = build_cols(csel)
+        calls = 0
+        try:
+            with sfile.SFile(fnb) as sf:
+                for nm in (first, second, first):
+                    r = lookalike(nm, L)
+                    rows = r if container == "ndarray" else (r.astype("i4") if container == "i4" else [int(q) for q in r])
+                    got = run_style(style, fnb, sf, rows, cols)
+                    calls += 1
+                    ex = expected(tb, ("i8", tuple(int(q) for q in r)), csel, None)
+                    m = compare(got, ex[1])
+                    if m:
+                        return rec.fail(case, "selection %r (%d rows) read after %r on the same handle: %s" % (nm, L, first if nm == second else second, m))
+        except Exception as e:
+            return rec.fail(case, "raised %s: %s" % (type(e).__name__, str(e)[:150]))
+        rec.ok(case, outcome="lookalike:%s/%s" % (first, second), nontrivial=first != second, calls=calls)
+
+    lkunits = [(4200, L, style, a, b, cont, cs) for L in (1001, 1100, 2000) for style in ("SF[]", "SF.read", "R.read")
+               for a in LOOK for b in LOOK if a != b for cont in ("ndarray", "list", "i4")
+               for cs in (None, ("scalar", "x")) if not (cont != "ndarray" and (L != 1100 or cs is not None))]
+    ctx.lattice("lookalike-selections-on-one-handle", lkunits, one_lookalike,
+                bounds=dict(rows=4200, lengths=[1001, 1100, 2000], variants=LOOK, containers=["ndarray", "list", "i4"]))
+
     NB = 70000
     marks = [4096, 65536, 65537, 131072 // 2 - 1]
     bsel = [None, ("slice", 0, 65536, None), ("slice", 1, 65537, None), ("slice", 4095, 4097, None), ("slice", 65535, None, None),
